@@ -86,6 +86,20 @@ func (cp *Checkpoint) NextWALID() int {
 	return maxID + 1
 }
 
+// Return 1 greater than the largest table file number in this checkpoint. A
+// database restored from the checkpoint must not name new tables below it.
+func (cp *Checkpoint) NextTableID() int64 {
+	var nextID int64
+	for level := range cp.Levels.DescendLevels() {
+		for t := range level.AllTables() {
+			if id, ok := sst.TableFileID(t.Name()); ok {
+				nextID = max(nextID, id+1)
+			}
+		}
+	}
+	return nextID
+}
+
 // WALSeq provides an iterator that concatenates all the entries in the list of
 // WALs.
 func (cp *Checkpoint) WALSeq(fs storage.FileSystem) iter.Seq2[wal.Entry, error] {
